@@ -251,7 +251,7 @@ pub fn items(args: &Args) -> Vec<Item> {
             v.push(Item::new(format!("c19/toy::{}", $name), move |rep, rng, _| toy::<TEm<$cfg>>(meta, rep, rng)));
         };
     }
-    let n = args.pick(4usize, 30);
+    let n = args.pick(4usize, 90);
     macro_rules! sw {
         ($name:literal, $cfg:ty) => {
             v.push(Item::new(format!("c19/{}", $name), move |rep, rng, _| shipped::<SWm<$cfg>>($name, rep, rng, n)));
@@ -266,7 +266,7 @@ pub fn items(args: &Args) -> Vec<Item> {
     crate::curves::for_each_shipped_te!(te);
     cfgs::for_each_toy_sw!(toy_sw);
     cfgs::for_each_toy_te!(toy_te);
-    let gn = args.pick(2usize, 8);
+    let gn = args.pick(2usize, 16);
     v.push(Item::new("c19/gt/bls12_381", move |rep, rng, _| {
         rep.require("pair: same target-group element through different pairings");
         gt::<bls12_381::Bls12_381>("bls12_381", rep, rng, gn)
@@ -275,7 +275,7 @@ pub fn items(args: &Args) -> Vec<Item> {
     v.push(Item::new("c19/gt/mnt4_298", move |rep, rng, _| gt::<mnt4_298::MNT4_298>("mnt4_298", rep, rng, gn)));
     v.push(Item::new("c19/gt/mnt6_298", move |rep, rng, _| gt::<mnt6_298::MNT6_298>("mnt6_298", rep, rng, gn)));
     v.push(Item::new("c19/gt/bw6_761", move |rep, rng, _| gt::<bw6_761::BW6_761>("bw6_761", rep, rng, gn)));
-    let pn = args.pick(12usize, 60);
+    let pn = args.pick(12usize, 160);
     v.push(Item::new("c19/poly/bls12_381::Fr", move |rep, rng, _| {
         rep.require("pair: same polynomial through different histories");
         polys::<bls12_381::Fr>("bls12_381::Fr", rep, rng, pn)
